@@ -135,6 +135,31 @@ def pC09 (k : Nat) (ds : List Doc) : String :=
         | .ok s => go rest (acc ++ " " ++ under (sexp s))
     go ds ("ok " ++ under (sexp base))
 
+/-- mirror of the harness' `p_readd`: the document at `idx` re-fed `k` times -/
+def pReadd (k idx : Nat) (ds : List Doc) : String :=
+  match fromSourcesDoc ds, ds[idx]? with
+  | .error _, _ => "skip"
+  | _, none => "skip"
+  | .ok base, some d =>
+    let under (s : String) : String := String.ofList (s.toList.map fun c => if c == ' ' then '_' else c)
+    let rec reps (hh : List Doc) (prev : Option Shape) : Nat → Nat → Except String Shape
+      | 0, _ => match prev with | some p => .ok p | none => .error "no repetition"
+      | n + 1, rep =>
+        let hh' := hh ++ [d]
+        match fromSourcesDoc hh' with
+        | .error _ => .error "violated: from_sources failed on a repetition"
+        | .ok s =>
+          match prev with
+          | some p =>
+            if Shape.cmp p s != .eq then
+              .error ("violated: shape still changing at repetition " ++ toString (rep + 1) ++ ": "
+                ++ sexp p ++ " -> " ++ sexp s)
+            else reps hh' (some s) n (rep + 1)
+          | none => reps hh' (some s) n (rep + 1)
+    match reps ds none k 0 with
+    | .error e => e
+    | .ok s => "ok " ++ under (sexp base) ++ " " ++ under (sexp s)
+
 /-- mirror of the harness' `p_cycle`: printed size of the shape of the group fed 2, 4, 8, 16 times -/
 def pCycle (ds : List Doc) : String :=
   let rep (m : Nat) : List Doc := (List.replicate m ds).flatten
@@ -273,7 +298,14 @@ def subQuery (q t : String) (a : Shape) (key : String) (i : Nat) : String :=
     | "tup" => if k == .tuple then "n/a" else showBool (isTupleOfAt k o i a)
     | _ => "bad-op"
 
+/-- operations answered through the model of the text layer (lexer + recovering parser over lists): texts beyond
+20 000 bytes are left to the implementation-side oracles -/
+def textModelOps : List String := ["p_c07", "lex", "cst", "superset", "supersetchk", "inferdoc"]
+
 def step (line : String) : String :=
+  if (textModelOps.contains ((line.splitOn "\t").headD "")) && (line.splitOn "\t").any (fun f => f.length > 40000) then
+    "unmodelled"
+  else
   match line.splitOn "\t" with
   | ["sub", q, t, a, key, i] => withShape a fun a =>
       match textOfHex key, i.toNat? with
@@ -440,6 +472,10 @@ def step (line : String) : String :=
       match docsOfHex hs, k.toNat? with
       | some ds, some k => pC09 k ds
       | _, _ => "not-json"
+  | "p_readd" :: k :: idx :: hs =>
+      match docsOfHex hs, k.toNat?, idx.toNat? with
+      | some ds, some k, some i => pReadd k i ds
+      | _, _, _ => "not-json"
   | "p_cycle" :: hs =>
       match docsOfHex hs with
       | some ds => pCycle ds
